@@ -503,7 +503,9 @@ pub fn invocation(sc: &Scenario) -> Invocation {
     let mut dirs = vec![];
     let mut stdin = stdin_as_given(sc);
     for f in &sc.flags {
-        if sc.flag_eq {
+        // a value that begins with `-` (a negative number as a document) is taken for a flag by
+        // the argument parser unless it is attached with `=`
+        if sc.flag_eq || f.trim_start().starts_with('-') {
             argv.push(format!("--input={}", f));
         } else {
             argv.push(if sc.long_flags { "--input".into() } else { "-i".into() });
